@@ -25,6 +25,9 @@ const MaxCallers = 16
 
 const hotWindow = 6
 
+// maxSelCases bounds the channels one task can wait on at once (cases of a select).
+const maxSelCases = 16
+
 // site kinds
 const (
 	KPlain  = 0
@@ -137,11 +140,13 @@ type task struct {
 	hot       int8 // yields left in the hot window after a shared site
 	child     bool // goroutine spawned by the library (not a caller task)
 	// channel wait registration (see chan.go)
-	waitKey unsafe.Pointer
-	waitDir int8
-	waitFn  func()
-	fire    bool
-	fired   bool
+	waitKeys [maxSelCases]unsafe.Pointer
+	waitDirs [maxSelCases]int8
+	nWait    int
+	waitFn   func(which int)
+	fire     bool
+	fireIdx  int
+	fired    bool
 }
 
 var (
@@ -183,6 +188,25 @@ func splitmix() uint64 {
 	z = (z ^ (z >> 30)) * 0xbf58476d1ce4e5b9
 	z = (z ^ (z >> 27)) * 0x94d049bb133111eb
 	return z ^ (z >> 31)
+}
+
+// rngSel is a second stream used for choices that belong to the program's own
+// nondeterminism (which ready case a select takes, which of several parked counterparts
+// a channel operation meets, the simulated GOMAXPROCS). It is drawn identically under
+// every scheduling policy including script replay, so these choices replay.
+var rngSel uint64
+
+//go:norace
+func selN(n int) int {
+	if n <= 1 {
+		return 0
+	}
+	rngSel += 0x9e3779b97f4a7c15
+	z := rngSel
+	z = (z ^ (z >> 30)) * 0xbf58476d1ce4e5b9
+	z = (z ^ (z >> 27)) * 0x94d049bb133111eb
+	z ^= z >> 31
+	return int(z % uint64(n))
 }
 
 //go:norace
@@ -565,8 +589,8 @@ func waitTurn(me int32) {
 			t.fire = false
 			f := t.waitFn
 			t.waitFn = nil
-			t.waitKey = nil
-			f()
+			t.nWait = 0
+			f(t.fireIdx)
 			t.fired = true
 		}
 		runtime.Gosched()
@@ -938,6 +962,11 @@ func Fault() string { return simFault }
 
 var simFault string
 
+// simProcs is the value runtime.GOMAXPROCS(0) / runtime.NumCPU() have for the library in
+// this run (a per-run configuration knob: code that switches strategy on the number of
+// processors must be correct for every value).
+var simProcs = 1
+
 // CurTask returns the running task id, -1 outside a run.
 //
 //go:norace
@@ -979,6 +1008,8 @@ func setup(n int, p Policy, nops int) {
 	ntasks = int32(n)
 	pol = p
 	rng = p.Seed
+	rngSel = p.Seed ^ 0x5e1ec7c0ffee
+	simProcs = []int{1, 2, 4, 8, 16}[selN(5)]
 	steps = 0
 	progress = 0
 	sig = 0xcbf29ce484222325
